@@ -356,7 +356,7 @@ def prim_cases(r, n):
 
 def run(ctx):
     quick = ctx.tier == "quick"
-    n_trees = int(os.environ.get('C09_TREES', 90 if quick else 2500))
+    n_trees = int(os.environ.get('C09_TREES', 90 if quick else 1500))
     n_prims = 220 if quick else 2200
     n_probe = 130
     r = ctx.rng
@@ -515,6 +515,30 @@ def run(ctx):
                                        "harness_input": "case b\nprim %s\nendcase\n" % G.prim_text(p)},
                                       signature=sig)
                 break
+    # tie of the model's [declared_bboxes] (used by the bzone theorems / refutations) to the code
+    # (prism: interior only -- axis-aligned side faces additionally clip the exterior box, not modelled)
+    kinds_b = {"box": (True, True), "sphere": (True, True), "cyl": (True, True), "prism": (True, False),
+               "ellipsoid": (False, True), "ppiped": (False, True)}
+    sel = [(p, hv) for p, hv in zip(prims, hp["prims"]) if p["k"] in kinds_b]
+    tolist = "(fun b : option (bbox (T:=float)) => match b with Some (lo, hi) => [vx lo; vy lo; vz lo; vx hi; vy hi; vz hi] | None => [] end)"
+    dexprs = ["match declared_bboxes %s with Some (i, e) => (%s i, %s e) | None => ([], []) end" % (G.prim_coq(p), tolist, tolist)
+              for p, _ in sel]
+    dvals = ctx.coq_eval("declbox", PRE, dexprs, chunk=max(20, len(dexprs) // 4 + 1)) if dexprs else []
+    nbd = 0
+    for (p, hv), (mi, me) in zip(sel, dvals):
+        chk_i, chk_e = kinds_b[p["k"]]
+        ext, inn = hv["bb"].get("bbox_ext"), hv["bb"].get("bbox_int")
+        if p["k"] == "ppiped" and me and not all(me[3 + i] > 0 for i in range(3)):
+            continue        # inverted box (negative half-diagonal): C++ result is a null / clipped box
+        bad = (chk_e and ext is not None and not close(list(me), ext, rtol=1e-9, atol=1e-12)) or \
+              (chk_i and inn is not None and mi and not close(list(mi), inn, rtol=1e-9, atol=1e-12))
+        ctx.case(("declbox", G.prim_text(p)), nontrivial=True)
+        if bad:
+            nbd += 1
+            if nbd <= 2:
+                ctx.violation("correspondence", "bounding boxes declared by %s::build differ from the model's declared_bboxes" % p["k"],
+                              {"primitive": G.prim_text(p), "impl_int": inn, "impl_ext": ext, "model_int": mi, "model_ext": me},
+                              no_input=True)
     ctx.count("bbox-violations", nbz)
     ctx.log("bounding zones checked")
 
